@@ -25,8 +25,14 @@ func buildSyscallProbe() *asm.Contract {
 	var ms []asm.MethodSpec
 	for _, s := range sysTable {
 		l := sysMethod(s.Name)
+		if s.Own {
+			l += "_own"
+		}
 		b.Label(l)
 		ms = append(ms, asm.MethodSpec{Name: l, Label: l, Params: s.Arity, Void: !s.Ret})
+		if s.Own {
+			b.Syscall("System.Storage.GetContext")
+		}
 		b.Syscall(s.Name).Op(opcode.RET)
 	}
 	addCommon(b, &ms)
@@ -142,6 +148,15 @@ func buildHopProbe(name string) *asm.Contract {
 			}
 		}
 	}
+	// call(h, m, f, args): generic forwarder (used as the calling contract of native methods that want one).
+	b.Label("call")
+	ms = append(ms, asm.MethodSpec{Name: "call", Label: "call", Params: 4})
+	b.InitSlot(0, 4).Op(opcode.LDARG3, opcode.LDARG2, opcode.LDARG1, opcode.LDARG0).Syscall("System.Contract.Call").Op(opcode.RET)
+	// oracleCb(url, userdata, code, result): callback of Oracle.finish; leaves a storage item and an event.
+	b.Label("oracleCb")
+	ms = append(ms, asm.MethodSpec{Name: "oracleCb", Label: "oracleCb", Params: 4, Void: true})
+	b.InitSlot(0, 4).Str("answered").Str("ocb").Syscall("System.Storage.GetContext").Syscall("System.Storage.Put")
+	b.Int(9).Op(opcode.PUSH1, opcode.PACK).Str("E").Syscall("System.Runtime.Notify").Op(opcode.RET)
 	addCommon(b, &ms)
 	c, err := asm.BuildContract(name, b, ms)
 	if err != nil {
